@@ -66,6 +66,9 @@ def main():
             print(p, r.returncode, sigs[:2], flush=True)
     finally:
         sh(["git", "-C", REPO, "checkout", "--", "."])
+        # the evidence files written during these runs describe the CHANGED tree: put back the
+        # committed ones (evidence under /verif/evidence must come from runs against /repo itself)
+        sh(["git", "-C", V, "checkout", "--", "evidence"])
         left = sh(["git", "-C", REPO, "status", "--porcelain"]).stdout.strip()
         if left:
             print("WARNING: /repo not clean after restore:", left)
